@@ -150,6 +150,12 @@ func ruleC03(c *Ctx) {
 	c.rule("C03-R1", "guard inventory: every accepting path of (*SAMLServiceProvider).Validate (validateResponseAttributes inlined) carries each of the 17 required facts + the expiry comparison; per-assertion facts come from the generic iteration of a loop over the whole of response.Assertions")
 	c.rule("C03-R2", "typed error: the path decided by the negation of a row returns ErrInvalidValue/ErrMissingElement/ErrParsing whose Key/Tag/Attribute constants name the element")
 	c.rule("C03-R5", "the configuration the profile checks compare against (IdP issuer, ACS URL, clock) is written by no library function (filtered view of the C17-R1 effect scan): a helper that pins sp.Clock to a fake clock on first use freezes 'now' for every later expiry check")
+	c.rule("C03-R6", "NotOnOrAfter has not been reached: the per-assertion expiry comparison rejects for now = bound and now > bound on the SP clock (truth table shared with C05-R1)")
+	nExp := shareFrom(c, "C03-R6", ruleC05, func(o *Obligation) bool {
+		return strings.HasPrefix(o.Rule, "C05-R1") && (strings.Contains(o.Key, "SubjectConfirmationData.NotOnOrAfter") || strings.Contains(o.Key, "expiry rejection"))
+	})
+	c.count("C03-R6", nExp)
+	c.floor("C03-R6", 3)
 	configUntouched(c, "C03-R5", "the fields the profile checks read", []string{"IdentityProviderIssuer", "AssertionConsumerServiceURL", "Clock", "AudienceURI"})
 	c.rule("C03-R3", "validation dominates acceptance: every accepting path of ValidateEncodedResponse ends with sp.Validate(returned object) == nil and no later store to its Assertions")
 	res := c.kernel("(*SAMLServiceProvider).Validate", "*")
@@ -549,6 +555,11 @@ func ruleC06(c *Ctx) {
 	c.rule("C06-R5", "the warnings mirror the FIRST assertion's own conditions: every verified assertion is decoded into a fresh object (shared appendProvenance) — a reused target makes Assertions[0] carry the union of all assertions' restrictions")
 	appendProvenance(c, "C06-R5")
 	c.rule("C06-R3", "OneTimeUse stored true exactly under Conditions.OneTimeUse != nil; ProxyRestriction allocated exactly under Conditions.ProxyRestriction != nil with Count copied and Audience accumulated in order from an empty non-nil slice")
+	nArg := shareFrom(c, "C06-R4", ruleC05, func(o *Obligation) bool {
+		return o.Rule == "C05-R5" && strings.Contains(o.Key, "VerifyAssertionConditions argument")
+	})
+	c.count("C06-R4/argument", nArg)
+	c.floor("C06-R4/argument", 1)
 	c.rule("C06-R4", "RetrieveAssertionInfo stores the WarningInfo returned by VerifyAssertionConditions on element [0] and nothing else")
 	vc := c.kernel("(*SAMLServiceProvider).VerifyAssertionConditions", "*")
 	if vc == nil {
